@@ -7,6 +7,16 @@
 //! `IntervalFunction`, `jitter` wraps the real `ExponentialRandomBackoff` in a spy that reports the
 //! delay it returned (`world::obs("delay", ns)`); the model takes that value as input and checks
 //! that it lies inside the randomization envelope (DESIGN §3.2).
+//!
+//! Requests share one `ReconnectState`. `arrive c … via=clone|same|swap|layer` says through which handle the
+//! request is made: a clone of the adapter's handle that is dropped as soon as the future exists (default), the
+//! adapter's own handle used again and again, the `mem::replace(&mut self.svc, clone)` idiom, or a service made
+//! on the spot by the same layer (`layer.layer(inner)`), dropped after the call. The model does not distinguish
+//! them: the published state is a function of the order of completions only.
+//! `manual dropsvc`: the service handle and the layer are dropped while requests are in flight (the futures own
+//! everything they need); later arrivals are `noop`. The `ReconnectState` observer used by `probe state` is kept:
+//! it is what an application holds to watch the connection, not a service handle.
+//! `manual ondrop …` is supported (`requester`).
 use crate::world::*;
 use std::sync::Arc;
 use std::time::Duration;
@@ -17,7 +27,9 @@ use tower_resilience_reconnect::{
 };
 
 pub struct Adapter {
-    svc: ReconnectService<Inner>,
+    /// `None` once `manual dropsvc` has dropped every handle
+    svc: Option<ReconnectService<Inner>>,
+    layer: Option<ReconnectLayer>,
     state: ReconnectState,
 }
 
@@ -78,8 +90,12 @@ impl Adapter {
         // `policy=default`: the layer exactly as `ReconnectLayer::default()` builds it (C14 end to end)
         let layer = if kv.str("policy", "exp") == "default" { ReconnectLayer::default() } else { ReconnectLayer::new(b.build()) };
         let state = layer.state().clone();
-        Adapter { svc: layer.layer(Inner::new()), state }
+        Adapter { svc: Some(layer.layer(Inner::new())), layer: Some(layer), state }
     }
+}
+
+fn ready(svc: &mut ReconnectService<Inner>) -> bool {
+    matches!(poll_ready_once(svc), std::task::Poll::Ready(Ok(())))
 }
 
 /// `ReconnectError` is not exported by the crate (its module is private), so the variant is read
@@ -111,17 +127,66 @@ pub fn render<E: std::error::Error + 'static>(r: Result<Resp, E>) -> String {
 
 impl Mw for Adapter {
     fn arrive(&mut self, c: usize, kv: &Kv) -> Option<CallFut> {
-        let mut svc = self.svc.clone();
+        let (Some(own), Some(layer)) = (self.svc.as_mut(), self.layer.as_ref()) else {
+            log_raw("noop".into());
+            return None;
+        };
         let req = Req::new(c, kv);
-        match poll_ready_once(&mut svc) {
-            std::task::Poll::Ready(Ok(())) => {}
+        let via = kv.str("via", "clone");
+        // the handle the request is made through
+        let fut = match via.as_str() {
+            "same" => {
+                if !ready(own) {
+                    log(format!("result {} notready", c));
+                    return None;
+                }
+                own.call(req)
+            }
+            "swap" => {
+                if !ready(own) {
+                    log(format!("result {} notready", c));
+                    return None;
+                }
+                let fresh = own.clone();
+                let mut readied = std::mem::replace(own, fresh);
+                readied.call(req)
+            }
+            "layer" => {
+                let mut svc = layer.layer(Inner::new());
+                if !ready(&mut svc) {
+                    log(format!("result {} notready", c));
+                    return None;
+                }
+                svc.call(req)
+            }
             _ => {
+                let mut svc = own.clone();
+                if !ready(&mut svc) {
+                    log(format!("result {} notready", c));
+                    return None;
+                }
+                svc.call(req)
+            }
+        };
+        Some(held(fut, render))
+    }
+    fn requester(&self) -> Option<Requester> {
+        let template = self.svc.as_ref()?.clone();
+        Some(std::rc::Rc::new(move |c: usize, kv: &Kv| {
+            let mut svc = template.clone();
+            if !ready(&mut svc) {
                 log(format!("result {} notready", c));
                 return None;
             }
+            Some(held(svc.call(Req::new(c, kv)), render))
+        }))
+    }
+    fn manual(&mut self, what: &str, _kv: &Kv) {
+        if what == "dropsvc" && self.svc.is_some() {
+            log_raw(format!("#dropsvc {}", now_ms()));
+            self.svc = None;
+            self.layer = None;
         }
-        let fut = svc.call(req);
-        Some(held(fut, render))
     }
     fn probe(&mut self, what: &str, _kv: &Kv) {
         match what {
